@@ -547,6 +547,10 @@ type runner struct {
 	replayIn   chan tmelink.ReplayedHeaderRequest
 	hcChans    []hcChan // HeightCommitted channels handed to the kernel, still open
 
+	hdrCoq  map[string]string // Gallina text of every header the harness built, by hash
+	hazards bool              // also generate the two inputs listed as known findings (they kill the kernel)
+
+	forceReplay int // the next replay uses this variant
 	script []string // scripted operations still to run: interleaving templates that random choice rarely lines up
 
 	io               string   // what a consumer operation received (tr), consumed by the next observe()
@@ -585,7 +589,9 @@ func (rn *runner) observe() string {
 		}
 		nv := chd.Header.NextValidatorSet
 		hdrs = append(hdrs, TL([]string{TN(h), TB(chd.Header.Hash), TB(chd.Header.PrevBlockHash),
-			TB(nv.PubKeyHash), TB(nv.VotePowerHash), rn.w.trKeys(nv), trVPows(nv), rn.w.trCProof(chd.Proof), rn.w.trConsistent(nv)}))
+			TB(nv.PubKeyHash), TB(nv.VotePowerHash), rn.w.trKeys(nv), trVPows(nv), rn.w.trCProof(chd.Proof), rn.w.trConsistent(nv),
+			TL([]string{TB(chd.Header.ValidatorSet.PubKeyHash), TB(chd.Header.ValidatorSet.VotePowerHash),
+				rn.w.trKeys(chd.Header.ValidatorSet), trVPows(chd.Header.ValidatorSet)})}))
 	}
 	keys := make([]hr, 0, len(rn.touched))
 	for k := range rn.touched {
@@ -732,7 +738,13 @@ func (rn *runner) replay(v, c *tmconsensus.VersionedRoundView) {
 	H, R := v.Height, v.Round
 	variant := 0
 	if w.r.chance(1, 2) {
-		variant = 1 + w.r.below(9)
+		variant = 1 + w.r.below(10)
+	}
+	if rn.hazards && R > 0 && w.r.chance(1, 3) {
+		variant = 11
+	}
+	if rn.forceReplay > 0 {
+		variant, rn.forceReplay = rn.forceReplay, 0
 	}
 	h := H
 	r := R
@@ -743,6 +755,20 @@ func (rn *runner) replay(v, c *tmconsensus.VersionedRoundView) {
 		r = R + 1
 	case 3:
 		r = R + 2
+	case 11: // a header committed in a round the mirror has already left
+		r = R - 1 - uint32(w.r.below(int(R)))
+	}
+	// variant 10: a header the mirror already holds as a proposed header of this height (this or an earlier round)
+	var known *tmconsensus.ProposedHeader
+	if variant == 10 {
+		var cands []tmconsensus.ProposedHeader
+		for rr := uint32(0); rr <= R; rr++ {
+			cands = append(cands, rn.knownPHs[hr{H, rr}]...)
+		}
+		if len(cands) > 0 {
+			known = &cands[w.r.below(len(cands))]
+			rn.stats["replay_of_known_header"]++
+		}
 	}
 	cur := rn.valsFor(H)
 	next, haveNext := rn.valsAt[H+1]
@@ -759,6 +785,11 @@ func (rn *runner) replay(v, c *tmconsensus.VersionedRoundView) {
 	}
 	hashOK := true
 	curHdr, nextHdr := cur, next
+	hdCoq := ""
+	if known != nil {
+		hd = known.Header
+		hdCoq = rn.hdrCoq[string(hd.Hash)]
+	}
 	switch variant {
 	case 4:
 		hd.Hash = append([]byte{}, hd.Hash...)
@@ -825,7 +856,10 @@ func (rn *runner) replay(v, c *tmconsensus.VersionedRoundView) {
 	}
 	rn.stats[fmt.Sprintf("replay_variant_%d", variant)]++
 	rn.stats[fmt.Sprintf("replay_res_%d", code)]++
-	rn.emit(fmt.Sprintf("(OpReplay %s %s)", rn.coqHdr(hd, hashOK, curHdr, nextHdr), w.coqCProof(proof)), code)
+	if hdCoq == "" {
+		hdCoq = rn.coqHdr(hd, hashOK, curHdr, nextHdr)
+	}
+	rn.emit(fmt.Sprintf("(OpReplay %s %s)", hdCoq, w.coqCProof(proof)), code)
 	if code == 2 && h == H && w.r.chance(1, 2) {
 		// the replay was refused: the same precommits arriving as ordinary gossip must not commit it either
 		rn.stats["replay_refused_then_gossip"]++
@@ -1128,7 +1162,11 @@ func (rn *runner) step() {
 		}
 		rn.script = nil
 	} else if rn.pendingCrash < 0 && w.r.chance(1, 25) {
-		switch y := w.r.below(3); {
+		switch y := w.r.below(4); {
+		case y == 3 && replayMode:
+			// a proposal is seen, the round is skipped, and the header comes back as a replayed header
+			rn.stats["script_replay_of_seen_proposal"]++
+			rn.script = []string{"propose", "nextround-all", "replay-known"}
 		case y == 0 && rn.consumers && rn.entered && rn.lastEnterH == v.Height && rn.lastEnterR == v.Round:
 			// the mirror jumps a round while the state machine is not reading; the state machine enters
 			// that round by itself and only then reads
@@ -1160,6 +1198,9 @@ func (rn *runner) step() {
 			}
 			if rn.entered && rn.lastEnterH == v.Height && rn.lastEnterR < v.Round && w.r.chance(2, 3) {
 				eh, er = v.Height, v.Round
+			}
+			if rn.hazards && v.Round > 0 && w.r.chance(1, 2) {
+				eh, er = v.Height, v.Round-1 // a slow state machine enters a round the mirror has already left
 			}
 			if eh > rn.lastEnterH || (eh == rn.lastEnterH && er > rn.lastEnterR) || !rn.entered {
 				rn.entered, rn.lastEnterH, rn.lastEnterR = true, eh, er
@@ -1266,7 +1307,7 @@ func (rn *runner) step() {
 		// the future path has no key-id filter: keep key ids well formed there (flaw kinds 0-4 only)
 		rn.doVotes(kind, h, r, string(vs.vs.PubKeyHash), []voteEntry{{t, rn.mkSigsNoKid(vs, kind, h, r, t, rn.randSubset(nn, 1), 10)}})
 	default: // odd proposals
-		rn.proposal(&v, &c, H, R, 1+w.r.below(11))
+		rn.proposal(&v, &c, H, R, 1+w.r.below(12))
 	}
 }
 
@@ -1298,6 +1339,9 @@ func (rn *runner) scripted(op string, v, c *tmconsensus.VersionedRoundView) bool
 		rn.doVotes(kindPrecommit, H, R, pkh, []voteEntry{{target, rn.mkSigs(cur, kindPrecommit, H, R, target, allIdx(n), 0)}})
 	case "propose":
 		rn.proposal(v, c, H, R, 0)
+	case "replay-known":
+		rn.forceReplay = 10
+		rn.replay(v, c)
 	case "smread":
 		rn.doSMRead()
 	case "gread":
@@ -1472,6 +1516,16 @@ func (rn *runner) proposal(v, c *tmconsensus.VersionedRoundView, H uint64, R uin
 		hash, _ := w.hs.Block(hd)
 		hd.Hash = hash
 	}
+	if variant == 12 {
+		// a well-formed header that names ANOTHER validator set as its own (lists and hashes consistent, block hash
+		// recomputed): everything a peer can check locally holds, only the comparison with the node's own set fails
+		other := w.randValset()
+		curHdr = other
+		hd.ValidatorSet = other.vs
+		hash, _ := w.hs.Block(hd)
+		hd.Hash = hash
+		rn.stats["ph_names_other_valset"]++
+	}
 	hashOK := true
 	if variant == 1 {
 		hd.Hash = append([]byte{}, hd.Hash...)
@@ -1521,6 +1575,7 @@ func (rn *runner) proposal(v, c *tmconsensus.VersionedRoundView, H uint64, R uin
 		keyCoq = "None"
 	}
 	coq := fmt.Sprintf("(mk_ph %s %d %s %s %s)", rn.coqHdr(hd, hashOK, curHdr, nextHdr), r, keyCoq, w.desc(sig), coqBytes(content))
+	rn.hdrCoq[string(hd.Hash)] = rn.coqHdr(hd, hashOK, curHdr, nextHdr)
 	if variant == 0 && w.r.chance(1, 5) {
 		// a relayed copy with a different next validator set and a correctly recomputed block hash:
 		// the proposer's signature does not cover either, so it still verifies (C15)
@@ -1531,6 +1586,7 @@ func (rn *runner) proposal(v, c *tmconsensus.VersionedRoundView, H uint64, R uin
 		hd2.Hash = hash2
 		ph2 := tmconsensus.ProposedHeader{Header: hd2, Round: r, Signature: sig, ProposerPubKey: ph.ProposerPubKey}
 		coq2 := fmt.Sprintf("(mk_ph %s %d %s %s %s)", rn.coqHdr(hd2, true, curHdr, alt), r, keyCoq, w.desc(sig), coqBytes(content))
+		rn.hdrCoq[string(hd2.Hash)] = rn.coqHdr(hd2, true, curHdr, alt)
 		rn.stats["ph_rehashed_copy"]++
 		if w.r.chance(1, 2) {
 			rn.doPH(ph2, coq2) // forged copy first
@@ -1567,7 +1623,7 @@ func (rn *runner) proposal(v, c *tmconsensus.VersionedRoundView, H uint64, R uin
 	}
 }
 
-var crashMode, consumerMode, replayMode bool
+var crashMode, consumerMode, replayMode, hazardMode bool
 
 func runCase(idx int, seed uint64, nOps int, out io.Writer, stats map[string]int) {
 	ctx, cancel := context.WithCancel(context.Background())
@@ -1596,7 +1652,7 @@ func runCase(idx int, seed uint64, nOps int, out io.Writer, stats map[string]int
 
 		AssertEnv: gasserttest.DefaultEnv(),
 	}
-	rn := &runner{w: w, cfg: cfg, initH: initH, genesis: genesis, cancel: cancel, bud: bud, pendingCrash: -1, crashes: crashMode, consumers: consumerMode,
+	rn := &runner{w: w, cfg: cfg, initH: initH, genesis: genesis, cancel: cancel, bud: bud, pendingCrash: -1, crashes: crashMode, consumers: consumerMode, hazards: hazardMode, hdrCoq: map[string]string{},
 		touched: map[hr]bool{}, out: out, valsAt: map[uint64]valset{}, knownPHs: map[hr][]tmconsensus.ProposedHeader{}, stats: stats}
 	rn.startMirror()
 	internTab = map[string]string{}
@@ -1635,6 +1691,7 @@ func main() {
 	ops := flag.Int("ops", 25, "operations per case")
 	flag.BoolVar(&crashMode, "crashes", false, "inject crashes (write budgets) and restarts")
 	flag.BoolVar(&consumerMode, "consumers", false, "act as state machine and gossip reader")
+	flag.BoolVar(&hazardMode, "hazards", false, "also generate the inputs recorded as known findings (they kill the kernel)")
 	flag.BoolVar(&replayMode, "replay", false, "feed replayed headers (mirror catch-up)")
 	flag.Parse()
 	out := os.Stdout
